@@ -21,6 +21,7 @@ import coremodel
 import coreprop
 import impl
 import lib
+import universe
 
 COQ_TARGETS = ["theories/Props/C07.vo", "theories/Model/BuildTables.vo", "theories/Model/CoreTables.vo",
                "theories/Props/C05Bridge.vo", "theories/Model/GraphBridgeEq.vo"]
@@ -307,7 +308,9 @@ def search(run: lib.Run, broken):
         g = rec.group
         d = rec.case_index.get("depth")
         stats["evaluations"] += 1
-        base = {"type": repr(rec.pytype), "depth": d, "value": repr(rec.value)[:300], "module_source": g.src}
+        base = {"type": repr(rec.pytype), "depth": d, "value": repr(rec.value)[:300], "module_source": g.src,
+                "env": {"module": g.env["module"], "defs": {str(k): v for k, v in g.env["defs"].items()}},
+                "tdesc": rec.tdesc}
         if rec.wire[0] != "ok":
             if rec.wire[1] == "ERecursion" and d is not None and d > 60:
                 continue            # beyond what the interpreter's default recursion limit allows
@@ -346,12 +349,57 @@ def search(run: lib.Run, broken):
     return [v[1] for v in best.values()]
 
 
+def _tup(x):
+    if isinstance(x, list):
+        return tuple(_tup(y) for y in x) if (x and isinstance(x[0], str)) else [_tup(y) for y in x]
+    return x
+
+
 def replay(payload):
-    return {"fails": False, "note": "replay: exec module_source, eval value, marshal/unmarshal (manual)"}
+    """rebuild the module of the failing case, construct the three routines for its root and round-trip freshly
+    built values of depth 0..depth (wire form and the valid value itself)"""
+    from typelib import codec, marshals, unmarshals
+    if "env" not in payload or "tdesc" not in payload:
+        return {"fails": False, "note": "replay needs env + tdesc (see module_source for a manual replay)"}
+    env = {"module": payload["env"]["module"] + "_replay",
+           "defs": {(int(k) if k.isdigit() else k): _tup(v) for k, v in payload["env"]["defs"].items()}}
+    root = _tup(payload["tdesc"])
+    mod, tys, src = universe.materialise(env, [root])
+    t, problems = tys[0], []
+    try:
+        signal.signal(signal.SIGALRM, _alarm)
+        signal.alarm(20)
+        try:
+            impl.clear_caches()
+            with warnings.catch_warnings():
+                warnings.simplefilter("ignore")
+                marshals.marshaller(t); unmarshals.unmarshaller(t); codec(t)
+        except BaseException as e:
+            return {"fails": True, "failures": [{"symptom": "construction raised / did not terminate", "got": repr(e)}]}
+        finally:
+            signal.alarm(0)
+        rng = random.Random(1)
+        cn = 0 if root[0] != "name" else root[1]
+        for d in range(0, min(int(payload.get("depth") or 3), 40) + 1):
+            v = wrap_root(root, deep_value(rng, env, mod, cn, d))
+            try:
+                w = marshals.marshal(v, t=t)
+                for tag, x in (("wire", w), ("valid", v)):
+                    r = unmarshals.unmarshal(t, x)
+                    if not coreprop.same(r, v):
+                        problems.append({"symptom": f"round trip through the {tag} form does not restore the value",
+                                         "depth": d, "got": repr(r)[:300], "expected": repr(v)[:300]})
+            except BaseException as e:
+                problems.append({"symptom": "valid recursive value raised", "depth": d, "got": repr(e)[:300]})
+            if problems:
+                break
+    finally:
+        impl.drop_module(env["module"])
+    return {"fails": bool(problems), "failures": problems}
 
 
 def reproduces(entry):
-    return False
+    return replay(entry["replay"])["fails"]
 
 
 def matches(entry, failure):
